@@ -322,6 +322,13 @@ void execute_compiler(const Plan& plan) {
     if (!failed) {
       if (arch == 2) acc.ret(); else xcc.ret();
       cc.end_func();
+      // constants requested after the last function has ended (no instruction can reference them any more, but the operands
+      // that were handed out must still designate their bytes after finalize())
+      for (int64_t k = 0, n = plan.get("trailing_consts", 0); k < n; k++) {
+        std::string d = gen_bytes(uint64_t(plan.seed) + 977 * uint64_t(k), size_t(1) << ((plan.seed >> (3 * k)) % 6), 0);
+        BaseMem mem; (void)cc._new_const(Out<BaseMem>(mem), ConstPoolScope(k & 1), d.data(), d.size());
+        if (!mem.is_none() && mem.has_base_label()) { handed.push_back(Handed{mem.base_id(), size_t(mem.offset()), d}); sim::count("c19.probe.constant_requested_after_last_function"); }
+      }
       Error e = cc.finalize();
       if (e != Error::kOk) SIM_CHECK(sim::run_faults_fired_total() > 0, "c19:finalize-failed", "finalize failed with %u without a fault", unsigned(e));
       else {
@@ -359,6 +366,7 @@ Plan generate_common(uint64_t seed, bool thorough, bool allow_reset) {
   p.set("abandoned", cfg.chance(1, 2) ? 0 : int64_t(1 + cfg.below(2)));
   p.set("extra_labels", int64_t(cfg.below(14)));
   p.set("multi_func", int64_t(cfg.below(2)));
+  p.set("trailing_consts", cfg.chance(1, 3) ? int64_t(1 + cfg.below(3)) : 0);
   p.set("prefix_nops", int64_t(cfg.below(70)));
   int fault_class = int(cfg.below(3));
   p.set("fault_class", fault_class);
